@@ -60,9 +60,11 @@ var props = map[string]*PropSpec{
 			{ID: "C18R", Race: true, QuickRuns: 200, QuickSecs: 150, ThoroughRuns: 20000, ThoroughSecs: 900, CrashRule: "R3"},
 			{ID: "C18A", Race: true, QuickRuns: 100, QuickSecs: 90, ThoroughRuns: 10000, ThoroughSecs: 600, CrashRule: "R3"},
 			{ID: "C18P", Race: true, QuickRuns: 150, QuickSecs: 90, ThoroughRuns: 10000, ThoroughSecs: 600, CrashRule: "R3"},
+			{ID: "C18L", QuickRuns: 300, QuickSecs: 60, ThoroughRuns: 20000, ThoroughSecs: 300},
+			{ID: "C18V", QuickRuns: 400, QuickSecs: 60, ThoroughRuns: 20000, ThoroughSecs: 300},
 			{ID: "C18S", QuickRuns: 1000, QuickSecs: 90, ThoroughRuns: 40000, ThoroughSecs: 900},
 		},
-		CoverageRule: "C18R (built with -race): 2-5 goroutines each driving 1-3 transactions (request, then response or proxy error) through shared flows, a grouped fixed-window quota and a concurrency quota of the real streams-mode HandlingDataManager, optionally a metrics read (flow invocations, quota counters read path) and a PUT /configuration reload at the same time; background GC/queue/unmanage goroutines run on the fake clock; C18A (-race): transaction lookups, policy reloads, a fail-safe revert and the two vacuum goroutines of the policies accessor; C18P (-race): 2-5 goroutines send SPOE request and response frames through the message handler of a policy-mode manager whose policies file (2-6 of: caching, response-based throttling, grouped strategy-based throttling, concurrency-based throttling, strategy-based queue, retry) was loaded by the gateway's own loader, optionally beside a policy reload; interleavings come from fake-time delays at every instrumented lock site and yield hook, a pure function of seed and call site; C18S: 2-3 overlapping transactions interleaved at lock sites by the token scheduler, outcome vector compared with all serial orders on fresh engines; non-trivial = every run (each has overlapping actors); distinct = (plan, delay parameters) signatures",
+		CoverageRule: "C18R (built with -race): 2-5 goroutines each driving 1-3 transactions (request, then response or proxy error) through shared flows, a grouped fixed-window quota and a concurrency quota of the real streams-mode HandlingDataManager, optionally a metrics read (flow invocations, quota counters read path) and a PUT /configuration reload at the same time; background GC/queue/unmanage goroutines run on the fake clock; C18A (-race): transaction lookups, policy reloads, a fail-safe revert and the two vacuum goroutines of the policies accessor; C18P (-race): 2-5 goroutines send SPOE request and response frames through the message handler of a policy-mode manager whose policies file (2-6 of: caching, response-based throttling, grouped strategy-based throttling, concurrency-based throttling, strategy-based queue, retry) was loaded by the gateway's own loader, optionally beside a policy reload; interleavings come from fake-time delays at every instrumented lock site and yield hook, a pure function of seed and call site; C18L: slots of the concurrency limiter taken and released while its vacuum goroutine passes, with simulated blocking (every lock taken through the simulator, tasks parked inside critical sections, a waiting writer shuts out readers): no deadlock, every operation returns; C18V: key registrations run to completion while the vacuum goroutine (adopted as a task) is held at a lock site inside a pass on a tick at which entries are due; every registered key must have left the map a time-to-live and four ticks after the last registration; C18S: 2-3 overlapping transactions interleaved at lock sites by the token scheduler, outcome vector compared with all serial orders on fresh engines; non-trivial = every run (each has overlapping actors); distinct = (plan, delay parameters) signatures",
 		Assumptions: []string{
 			"the Go race detector (happens-before) is the invariant monitor for R1; a report counts when one of its stacks has a frame in lunar/...; the signature is the pair of top engine frames",
 			"race-mode interleaving is by stateless fake-time delays, not by the token scheduler (token hand-off would add happens-before edges and hide races)",
@@ -200,8 +202,9 @@ var props = map[string]*PropSpec{
 	},
 	"C06": {
 		Level:        "exploration",
-		Scens:        []ScenSpec{{ID: "C06", QuickRuns: 1500, QuickSecs: 120, ThoroughRuns: 100000, ThoroughSecs: 900, CrashRule: "R5", HangRule: ""}},
-		CoverageRule: "each run = a generated Queue processor (queue_size 1-4, ttl 1-5 s, optional priority groups) on a fixed-window quota (max 1-2 per 1-5 s) in the real streams engine; 2-10 arrivals with priorities, clock targets on/next to the 100 ms processing ticks, quota window ends and TTL expiries, stalls of request goroutines at instrumented lock sites while time passes, context cancel at a random step; in a third of the runs the engine's own goroutines (processing loop, TTL watcher, removal) are scheduled at lock sites too, the loop is driven on until it holds a waiting request and the clock is moved to that request's expiry (TTL elapsing inside one quota check), and stalling the loop or the watcher across a clock jump is an injected fault; non-trivial = more arrivals than the quota allows per window and at least one grant; distinct = schedule signatures among non-trivial runs",
+		Scens: []ScenSpec{{ID: "C06", QuickRuns: 1500, QuickSecs: 120, ThoroughRuns: 100000, ThoroughSecs: 900, CrashRule: "R5", HangRule: ""},
+			{ID: "C06L", QuickRuns: 400, QuickSecs: 90, ThoroughRuns: 30000, ThoroughSecs: 400, CrashRule: "R5", HangRule: ""}},
+		CoverageRule: "C06L: the same processor with simulated blocking - every goroutine takes its locks through the simulator, tasks are parked inside critical sections, a goroutine that cannot get a lock is parked as blocked and a waiting writer shuts out new readers; judged on liveness (a verdict for every request once faults stop) and on deadlock (every live task waits for a lock); C06: each run = a generated Queue processor (queue_size 1-4, ttl 1-5 s, optional priority groups) on a fixed-window quota (max 1-2 per 1-5 s) in the real streams engine; 2-10 arrivals with priorities, clock targets on/next to the 100 ms processing ticks, quota window ends and TTL expiries, stalls of request goroutines at instrumented lock sites while time passes, context cancel at a random step; in a third of the runs the engine's own goroutines (processing loop, TTL watcher, removal) are scheduled at lock sites too, the loop is driven on until it holds a waiting request and the clock is moved to that request's expiry (TTL elapsing inside one quota check), and stalling the loop or the watcher across a clock jump is an injected fault; non-trivial = more arrivals than the quota allows per window and at least one grant; distinct = schedule signatures among non-trivial runs",
 		Assumptions: []string{
 			"scheduling slack for a verdict is 300 ms (three processing ticks) of time in which neither the processing loop nor the TTL watcher is stalled by the simulator; stall intervals that begin before that are waited out (chained); a stall of the request's own goroutine suspends its deadline",
 			"order is judged at the decision point: when the loop takes a request off the heap (mq.pop, under the queue lock) for the attempt that admits it, no better-ranked request is in the heap; rank = (priority, instant of first push), equal instants are unordered",
